@@ -53,7 +53,8 @@ Emit == (Len(hist) = MaxHist) => PrintT(<<"CASE", ToJson([h |-> hist])>>)
 (* one outer step per glyph and each step runs at most 63 nested actions, each of which     *)
 (* inserts at most R-1 glyphs (R = longest replacement sequence of the tables).             *)
 Cap == 100000000
-Grow(n, R) == IF n * (1 + 63 * (R - 1)) > Cap THEN Cap ELSE n * (1 + 63 * (R - 1))
+Factor(R) == 1 + 63 * (R - 1)
+Grow(n, R) == IF n > Cap \div Factor(R) THEN Cap ELSE n * Factor(R)      \* no 32-bit overflow
 RECURSIVE Bound(_, _, _)
 Bound(n, R, passes) == IF passes = 0 THEN n ELSE Bound(Grow(n, R), R, passes - 1)
 Safe(e, R, passes) ==
